@@ -77,6 +77,9 @@ def handle (inp out : List String) : String :=
         | _ => some "unparsable"
       verdict [encodeText mp, encodeText mu] out prop
     | none => "BADLINE c08 w"
+  | ["big", _nr, _nc, _pc] =>
+    -- a large sparse matrix written and parsed back by the implementation itself (C08.roundtrip_text says the result must be the same matrix)
+    verdict ["roundtrip-ok"] out (if out ≠ ["roundtrip-ok"] then some ("large-sparse-matrix-does-not-round-trip: " ++ " ".intercalate out) else none)
   | ["p", t] =>
     match decodeText t with
     | some text =>
